@@ -9,7 +9,7 @@ from .. import gen, impl, oracle, progs, ser, stream
 
 ID = "C14"
 LEVEL = "proof"
-PROPS_MODULE = "SymmModel.Props.C14All"
+PROPS_MODULE = "SymmModel.Props.C14All2"
 THEOREMS = [
     "SymmModel.C14.op_safe",
     "SymmModel.C14.op_step",
@@ -71,10 +71,27 @@ THEOREMS = [
     "SymmModel.Heap.op2_ok",
     "SymmModel.Heap.binaryA_runs",
     "SymmModel.Heap.binaryF_runs",
-    "SymmModel.Heap.align_runs"
+    "SymmModel.Heap.align_runs",
+    "SymmModel.C14.inplace_same_value_binaryF_self_sem",
+    "SymmModel.C14.inplace_same_value_binaryF_self_prov",
+    "SymmModel.C14.binaryA_value",
+    "SymmModel.C14.binaryF_value",
+    "SymmModel.C14.binaryF_self_value",
+    "SymmModel.Heap.sacts_abs",
+    "SymmModel.Heap.phaseSync_abs",
+    "SymmModel.Heap.binPure_abs",
+    "SymmModel.Heap.bodyF_self_sem",
+    "SymmModel.Heap.binaryF_self_runs",
+    "SymmModel.Heap.binSem_outer",
+    "SymmModel.Heap.binSem_inner",
+    "SymmModel.Heap.binSem_strict",
+    "SymmModel.Heap.binSem_value",
+    "SymmModel.Heap.bodyF_value",
+    "SymmModel.Heap.keysOf_psSem",
+    "SymmModel.Heap.psActs_ph"
 ]
-LEAN_FILES = ["SymmModel.Model.Heap", "SymmModel.Proofs.HeapLemmas", "SymmModel.Proofs.HeapRefine", "SymmModel.Props.C14", "SymmModel.Driver.HeapH", "SymmModel.Model.Heap2", "SymmModel.Proofs.Heap2Binary", "SymmModel.Proofs.Heap2Inplace", "SymmModel.Proofs.Heap2Lemmas", "SymmModel.Props.C14b", "SymmModel.Props.C14All", "SymmModel.Driver.Heap2H"]
-PLANNED = ["inplace_same_value (modulo buffer provenance) for fermionic x op= x with pending signs: general simulation proof (concrete instance proved, real code compared by the harness)"]
+LEAN_FILES = ["SymmModel.Model.Heap", "SymmModel.Proofs.HeapLemmas", "SymmModel.Proofs.HeapRefine", "SymmModel.Props.C14", "SymmModel.Driver.HeapH", "SymmModel.Model.Heap2", "SymmModel.Proofs.Heap2Binary", "SymmModel.Proofs.Heap2Inplace", "SymmModel.Proofs.Heap2Lemmas", "SymmModel.Props.C14b", "SymmModel.Props.C14All", "SymmModel.Driver.Heap2H", "SymmModel.Proofs.Heap3Sem", "SymmModel.Proofs.Heap3Prov", "SymmModel.Proofs.Heap3Value", "SymmModel.Props.C14c", "SymmModel.Props.C14All2"]
+PLANNED = ["psSem (heap-side phase_sync on block values) = the value model's Arr.phaseSync, to finish the fermionic end-to-end link to binaryBlockwise (abelian link complete)"]
 RULE = ("random programs (length <= 4) over abelian and fermionic arrays incl. decompositions; deep snapshots "
         "(block bytes, dict orders, index tables, charge, pending signs, labels) of every live value before and after "
         "each step; afterwards every result is mutated through all in-place methods and dict writes and the operands "
